@@ -84,7 +84,7 @@ func c03History(c *core.Ctx, idx int) (*hist.History, []*hist.Table) {
 
 func checkC03(c *core.Ctx) {
 	c.SetRule("histories of 1..4 binlog files (file switch after every kind of unit — by a ROTATE event or, one time in three, by a server restart (STOP event or nothing, next file announced only by the artificial rotate, table ids possibly re-bound) —, two switches in a row, a switch as the first unit, per-file checksum / row-version / table-id configuration, half of them with file offsets just below or straddling 2^31 and just below 2^32), streamed fully and then resumed by a FRESH streamer at the end label of EVERY delivered transaction k; oracles: labels equal the model (start = previous end / initial position / rotate target, end = end offset of the commit event), independent chain rule, resumed stream accepted by the master on an event boundary and delivering exactly tx[k+1..] with identical contents and labels; distinct by (history bytes, k); non-trivial iff the history has a rotation or >= 3 transactions")
-	nh := c.N(800, 40000)
+	nh := c.N(800, 120000)
 	if c.Replay != "" {
 		var w struct {
 			Witness struct {
